@@ -197,6 +197,7 @@ inductive ApiOp
   | sAppend (d : Nat) (bytes : List Nat)       -- append(const char*, len)
   | sReserve (d n : Nat)
   | sDel (d : Nat)                             -- ~String(); new String
+  | sSet (d : Nat) (bytes : List Nat)          -- d = String(bytes, len)   (assignment from a temporary)
   -- Variant
   | vCopy (d s : Nat)
   | vAssign (d s : Nat)
@@ -206,6 +207,7 @@ inductive ApiOp
   | vAppStr (d : Nat) (bytes : List Nat)       -- toString().append(bytes)   (mutable accessor)
   | vPush (d x : Nat)                          -- toList().append(Variant(x)) (mutable accessor)
   | vSwap (a b : Nat)
+  | vSetList (d x : Nat)                       -- operator=(const List<Variant>&) with the one-element list [x]
   -- Xml::Variant
   | xCopy (d s : Nat)
   | xAssign (d s : Nat)
@@ -286,6 +288,8 @@ def pre (st : St) (tid : Nat) : ApiOp → List Act
   | .sAppend d bytes => [.readRef d ((viewVal st d).length + bytes.length ≤ blkCap st d)]
   | .sReserve d n => [.readRef d (max n (viewVal st d).length ≤ blkCap st d)]
   | .sDel d => rel d
+  | .sSet d bytes =>
+    [.alloc (tmpU tid) tagStr bytes (strCap bytes.length)] ++ shareAssign tid d (tmpU tid) ++ rel (tmpU tid)
   | .vCopy d s =>
     if d = s then [] else
     rel d ++ (match st.slots s with
@@ -298,6 +302,7 @@ def pre (st : St) (tid : Nat) : ApiOp → List Act
   | .vSetStr d _ => [.readRef d (blkTag st d == some tagVStr)]
   | .vAppStr d _ => [.readRef d (blkTag st d == some tagVStr)]
   | .vPush d _ => [.readRef d (blkTag st d == some tagVList)]
+  | .vSetList d _ => [.readRef d (blkTag st d == some tagVList)]
   | .vSwap _ b =>
     -- Variant tmp = other;
     (match st.slots b with
@@ -358,6 +363,7 @@ def post (st : St) (tid : Nat) : ApiOp → List Act
     else
       let conv := if blkTag st d == some tagVList then viewVal st d else []
       cloneAllocFirst tid d tagVList (conv ++ [x]) 0
+  | .vSetList d x => if isWriting st tid then [.write [x]] else cloneReleaseFirst d tagVList [x]
   | .vSwap a b =>
     -- other = *this; *this = tmp; ~tmp
     boxAssign st tid b a ++
